@@ -147,7 +147,7 @@ func parseContracts(path string) (*ContractFile, error) {
 				rest = rest[len(m[0]):]
 			}
 			c.Expr = rest
-		case "nopanic", "pure", "trusted", "nonil":
+		case "nopanic", "pure", "trusted", "nonil", "fparith":
 			c.Kind = word
 			c.Expr = rest
 		case "effects":
